@@ -87,7 +87,7 @@ func (g *Gate) Release() { g.once.Do(func() { close(g.release) }) }
 
 // Anomaly is a lifecycle or contract breach seen by the backend itself.
 type Anomaly struct {
-	Kind string // use-after-close | double-close | second-open | overlap
+	Kind string // use-after-close | double-close | second-open | overlap | fenced-path-reached
 	A, B string // calls involved
 	Sig  string // stable signature
 }
@@ -117,8 +117,9 @@ type FS struct {
 	active        map[*Call]bool
 	anomalies     []Anomaly
 	armed         bool
-	armedSeq      int           // number of calls made while armed
-	faultArmedIdx map[int]Fault // by armed-call index (1-based)
+	armedSeq      int              // number of calls made while armed
+	faultArmedIdx map[int]Fault    // by armed-call index (1-based)
+	faultNext     map[string]Fault // one-shot, by "Op path"
 	// IOUnit is what Open and Create announce as iounit (0: nothing, as most backends)
 	IOUnit  uint32
 	Perturb func(c *Call)
@@ -168,6 +169,39 @@ type Handle struct {
 	closes         int
 	usedAfterClose int
 	opens          int
+	born           *memtree.Inode // the object this File was handed out for (nil: unknown)
+}
+
+// fencedOps are the calls the server must not make on a File whose entry has
+// been unlinked or replaced (walks with names, opens and everything that goes
+// by the path); getattr, I/O on open files, clones and Close go on.
+var fencedOps = map[string]bool{"Open": true, "Create": true, "Symlink": true, "Link": true, "RenameAt": true, "UnlinkAt": true,
+	"Readlink": true, "Mknod": true, "Mkdir": true, "SetAttr": true, "GetXattr": true, "ListXattrs": true, "Readdir": true}
+
+// checkFenced flags a path-dependent call on a File whose path no longer leads
+// to the object it was handed out for. Only with Options.Monitor.
+func (fs *FS) checkFenced(h *Handle, c *Call) {
+	if h == nil || !fs.opts.Monitor {
+		return
+	}
+	if !(fencedOps[c.Op] || ((c.Op == "Walk" || c.Op == "WalkGetAttr") && len(c.Names) > 0)) {
+		return
+	}
+	h.mu.Lock()
+	born, path := h.born, h.path
+	h.mu.Unlock()
+	if born == nil {
+		return
+	}
+	fs.treeMu.Lock()
+	now, e := fs.Tree.Resolve(split(path))
+	fs.treeMu.Unlock()
+	if e == 0 && now == born {
+		return
+	}
+	fs.mu.Lock()
+	fs.anomalies = append(fs.anomalies, Anomaly{Kind: "fenced-path-reached", A: c.String(), Sig: "fenced-path-reached:" + c.Op})
+	fs.mu.Unlock()
 }
 
 func (fs *FS) newHandle(path string, kind uint32) *Handle {
@@ -210,6 +244,10 @@ func (fs *FS) enter(h *Handle, c *Call) *Fault {
 	if f, ok := fs.faults[c.Seq]; ok {
 		fault = &f
 	}
+	if f, ok := fs.faultNext[c.Op+" "+c.Path]; ok {
+		delete(fs.faultNext, c.Op+" "+c.Path)
+		fault = &f
+	}
 	if fs.armed {
 		fs.armedSeq++
 		if f, ok := fs.faultArmedIdx[fs.armedSeq]; ok {
@@ -248,6 +286,7 @@ func (fs *FS) enter(h *Handle, c *Call) *Fault {
 	}
 	perturb := fs.Perturb
 	fs.mu.Unlock()
+	fs.checkFenced(h, c)
 	for _, g := range hold {
 		select {
 		case g.Entered <- c:
@@ -357,6 +396,16 @@ func ErrnoOf(err error) int {
 func (fs *FS) ResetIO() {
 	fs.mu.Lock()
 	fs.ioIdx = 0
+	fs.mu.Unlock()
+}
+
+// FailNext makes the next call of op on the File at path fail with errno.
+func (fs *FS) FailNext(op, path string, errno int) {
+	fs.mu.Lock()
+	if fs.faultNext == nil {
+		fs.faultNext = map[string]Fault{}
+	}
+	fs.faultNext[op+" "+path] = Fault{Err: linux.Errno(errno)}
 	fs.mu.Unlock()
 }
 
@@ -584,7 +633,11 @@ func (h *Handle) walk(names []string) ([]p9.QID, *Handle, int) {
 	kind := h.kind
 	h.mu.Unlock()
 	if len(names) == 0 {
-		return nil, h.fs.newHandle(path, kind), 0
+		nh := h.fs.newHandle(path, kind)
+		h.mu.Lock()
+		nh.born = h.born
+		h.mu.Unlock()
+		return nil, nh, 0
 	}
 	cur, e := h.fs.Tree.Resolve(split(path))
 	if e != 0 {
@@ -600,7 +653,9 @@ func (h *Handle) walk(names []string) ([]p9.QID, *Handle, int) {
 		path += "/" + n
 		cur = next
 	}
-	return qids, h.fs.newHandle(path, cur.Type), 0
+	nh := h.fs.newHandle(path, cur.Type)
+	nh.born = cur
+	return qids, nh, 0
 }
 
 // WalkGetAttr implements p9.File.
@@ -998,6 +1053,7 @@ func (h *Handle) Create(name string, flags p9.OpenFlags, permissions p9.FileMode
 			p := h.path
 			h.mu.Unlock()
 			nh = h.fs.newHandle(p+"/"+name, memtree.TReg)
+			nh.born = i
 			nh.ino = i
 			nh.opened = true
 			nh.opens = 1
